@@ -350,10 +350,9 @@ def signext(ctx):
                     pass
                 if ok is None:
                     # symbolic: 1 << (b - 1)  and  1 << b
-                    if isinstance(mask, ast.BinOp) and isinstance(mask.op, ast.LShift) and norm(mask.left) == '1' and isinstance(k, ast.BinOp) and \
-                            isinstance(k.op, ast.LShift) and norm(k.left) == '1' and isinstance(mask.right, ast.BinOp) and isinstance(mask.right.op, ast.Sub) and \
-                            norm(mask.right.right) == '1':
-                        ok = norm(mask.right.left) == norm(k.right)
+                    if isinstance(mask, ast.BinOp) and isinstance(mask.op, ast.LShift) and norm(mask.left) == '1' and \
+                            isinstance(mask.right, ast.BinOp) and isinstance(mask.right.op, ast.Sub) and norm(mask.right.right) == '1':
+                        ok = isinstance(k, ast.BinOp) and isinstance(k.op, ast.LShift) and norm(k.left) == '1' and norm(mask.right.left) == norm(k.right)
                         shown = '%s and %s' % (norm(mask), norm(k))
                 if ok is None:
                     continue
